@@ -33,6 +33,10 @@ pp_a = z3.Function("pair_part_witness_open", I, S, S)
 pp_b = z3.Function("pair_part_witness_close", I, S, S)
 cmw_a = z3.Function("comment_witness_open", I, S, S)
 cmw_b = z3.Function("comment_witness_close", I, S, S)
+char_of = z3.Function("is_a_character_of", S, S, B)                  # (character, text)
+all_chars_ident = z3.Function("all_characters_are_identifier_characters", S, B)
+bad_char = z3.Function("non_identifier_character_witness", S, S)
+ascii_ok = z3.Function("encodes_as_ascii", S, B)
 cf_wit = z3.Function("casefold_witness", I, S, S)
 sub_wit = z3.Function("substring_witness", I, S, S)
 str_of = z3.Function("str_of_value", I, S)                            # str(value)
@@ -58,6 +62,10 @@ CONFIGURED = z3.IntVal(1)        # Token(..., grammar=self.grammar, decoder=self
 def _cm(t, a, b):
     nl = lit("\n")
     return z3.And(prefixof(t, a), z3.Or(suffixof(t, b), z3.And(b == nl, z3.Not(sub_in(nl, t)))))
+
+
+def _identchar(c):
+    return z3.Or(z3.Function("str_isalpha", S, B)(c), z3.Function("str_isdigit", S, B)(c), c == lit("_"))
 
 
 def gconst(name):
@@ -93,6 +101,11 @@ class EncTheory(LexTheory):
             z3.ForAll([k, y], z3.Implies(comment_match(k, y), z3.And(
                 pairs_has(k, cmw_a(k, y), cmw_b(k, y)), _cm(y, cmw_a(k, y), cmw_b(k, y)))),
                 patterns=[comment_match(k, y)]),
+            # all_chars_ident(s) <=> every character c of s has isalpha(c) or isdigit(c) or c == "_"
+            z3.ForAll([x, y], z3.Implies(z3.And(all_chars_ident(y), char_of(x, y)), _identchar(x)),
+                      patterns=[z3.MultiPattern(all_chars_ident(y), char_of(x, y))]),
+            z3.ForAll([y], z3.Implies(z3.Not(all_chars_ident(y)), z3.And(char_of(bad_char(y), y), z3.Not(_identchar(bad_char(y))))),
+                      patterns=[all_chars_ident(y)]),
             z3.ForAll([v], z3.Implies(type_is(v, type_id("bool")), type_is(v, type_id("self.numeric_types"))),
                       patterns=[type_is(v, type_id("bool"))]),
         ]
@@ -318,6 +331,12 @@ class EncTheory(LexTheory):
         if (isinstance(recv, ObjV) and recv.role == "self" and self.program is not None
                 and self.program.find_method(recv.cls, name)[1] is not None):
             return super().call_method(ex, recv, name, args, kwargs)
+        if t is not None and name == "encode":
+            enc = kwargs.get("encoding", args[0] if args else Conc("utf-8"))
+            if isinstance(enc, Conc) and enc.v == "ascii":
+                if ex.branch(ascii_ok(t), "encode-ascii"):
+                    return ObjV("bytes")
+                raise PyRaise(ExcV("UnicodeEncodeError"))
         if t is not None:
             if name == "startswith" and self.sv(args[0]) is not None:
                 return Z("bool", prefixof(t, self.sv(args[0])))
@@ -348,6 +367,8 @@ class EncTheory(LexTheory):
             return self.search_loop(ex, node, itv.info["rest"], spec, ordn)
         if isinstance(itv, ObjV) and itv.role in ("strset", "pairs") and getattr(spec, "fall_through", None) is not None:
             return self.search_loop(ex, node, itv, spec, ordn)
+        if self.sv(itv) is not None and getattr(spec, "fall_through", None) is not None:
+            return self.search_loop(ex, node, ObjV("chars", info={"text": self.sv(itv)}), spec, ordn)
         return super().for_loop(ex, node, itv, spec, ordn)
 
     def search_loop(self, ex, node, table, spec, ordn):
@@ -359,7 +380,9 @@ class EncTheory(LexTheory):
             raise Untranslatable(f"search loop #{ordn} without fall-through / exit facts")
         if assigned_in(node.body) - {t.id for t in ast.walk(node.target) if isinstance(t, ast.Name)}:
             raise Untranslatable(f"search loop #{ordn} assigns variables")
-        k = table.info["id"]
+        chars = table.role == "chars"
+        k = table.info["text"] if chars else table.info["id"]
+        member = (lambda x: char_of(x, k)) if chars else (lambda x: set_has(k, x))
         pairs = table.role == "pairs"
         c = ex.path.choose(2, f"for@{node.lineno}")
         if c == 0:
@@ -369,7 +392,9 @@ class EncTheory(LexTheory):
                 ex.assign(node.target, TupV([Z("str", x[0]), Z("str", x[1])]))
             else:
                 x = fresh("member", S)
-                ex.st.assume(set_has(k, x))
+                ex.st.assume(member(x))
+                if chars:
+                    ex.st.assume(strlen(x) == 1)
                 ex.assign(node.target, Z("str", x))
             try:
                 ex.stmts(node.body)
@@ -386,7 +411,7 @@ class EncTheory(LexTheory):
             closure = z3.ForAll([xa, xc], z3.Implies(pairs_has(k, xa, xc), z3.And(*[f for _, f in J(ex.env, ex.st, (xa, xc))])))
         else:
             xb = z3.Const("bound_member", S)
-            closure = z3.ForAll([xb], z3.Implies(set_has(k, xb), z3.And(*[f for _, f in J(ex.env, ex.st, xb)])))
+            closure = z3.ForAll([xb], z3.Implies(member(xb), z3.And(*[f for _, f in J(ex.env, ex.st, xb)])))
         for nm, f in E(ex.env, ex.st):
             ex.oblige(f"{q}:{lname}:exit-fact-is-the-forall-closure:{nm}", z3.Implies(closure, f))
             ex.st.assume(f)
